@@ -229,6 +229,11 @@ func (t *FSTree) readHeader(id oid.ID, f *os.File, buf []byte) ([]byte, io.ReadS
 			if l == 0 {
 				return nil, nil, io.ErrUnexpectedEOF
 			}
+			if offset+objectwire.NonPayloadFieldsBufferLength > len(buf) {
+				// not enough room for the head after the sliding window, shift it to the buffer start
+				n = copy(buf, buf[offset:n])
+				offset = 0
+			}
 			size := min(offset+int(l), offset+objectwire.NonPayloadFieldsBufferLength)
 			if n < size {
 				_, err = io.ReadFull(f, buf[n:size])
